@@ -163,3 +163,26 @@ def eph_first(maxseq=3, **kw):
 
 
 ALL.update(eph_first=eph_first)
+
+
+def join_late(maxseq=6, **kw):
+    """S -> A and S -> K <- T: K joins late (it is held back while A drives S ahead), so K meets S at a high id and T at id 0"""
+    return Topo('JoinLate', {
+        'S': dict(nout=1, beh=beh('origin', tseq=[['main']])),
+        'T': dict(nout=1, beh=beh('origin', tseq=[['main']])),
+        'A': dict(srcs=[src('S')]),
+        'K': dict(srcs=[src('T', topics=[('main', 'b')]), src('S', topics=[('main', 'a')])]),
+    }, maxseq=maxseq, **kw)
+
+
+def prefix_topics(maxseq=2, **kw):
+    """topic names that are prefixes of one another: a named subscription must not receive the longer-named topic"""
+    return Topo('PrefixTopics', {
+        'S': dict(nout=1, beh=beh('origin', tseq=[['mainx', 'main', 'b']])),
+        'K': dict(srcs=[src('S', topics=[('main', 'main')])]),
+        'M': dict(srcs=[src('S', topics=[('main', 'm'), ('b', 'b')])]),
+        'X': dict(srcs=[src('S', topics=[('mainx', 'mainx')])]),
+    }, maxseq=maxseq, topic_order=('mainx', 'main', 'b', 'c', '_filter'), **kw)
+
+
+ALL.update(join_late=join_late, prefix_topics=prefix_topics)
